@@ -4,6 +4,7 @@
 import GeonumModel.Lemmas.GeonumMag
 import GeonumModel.Lemmas.GradeAngle
 import GeonumModel.Spec.RealWitness
+import GeonumModel.Lemmas.ExactAdd
 
 set_option linter.unusedSectionVars false
 set_option linter.unusedVariables false
@@ -76,9 +77,65 @@ theorem add_zero_same_angle {a : Geonum F} (hm : Fin a.mag) (ha : a.angle.Inv) :
 
 end S
 
-/-! PARTIAL (E-tier, not yet proved): the refinement `cart (a+b) ≈ cart a + cart b` within 1e-10 (three branches: same
-    angle, opposite, law of cosines + atan2), commutativity of the general branch, and the √ε cancellation bound (B-tier, not
-    provable with the tools at hand).  Explored by `oracle.C06.sum` and `oracle.C06.running`. -/
+/-! ### E-tier: exact arithmetic — the sum IS the Cartesian sum -/
+section E
+open GeonumModel.Exact
+
+/-- (E) **main refinement**: for canonical operands with non-negative magnitudes and a blade sum up to `2^40`, whichever of the
+    code paths applies (identical angles, a half turn apart with or without cancellation, or the general law-of-cosines /
+    `atan2` path with its re-encoding on top of the blade sum), the Cartesian point of `a + b` is the component-wise sum of the
+    operands' points to within `1e-10·(1 + |a| + |b|)` -/
+theorem add_is_cartesian_sum {a b : Geonum ℝ} (ha : a.angle.Inv) (hb : b.angle.Inv) (h0a : 0 ≤ a.mag) (h0b : 0 ≤ b.mag)
+    (hcb : a.angle.blade + b.angle.blade ≤ 2 ^ 40) :
+    ‖cart (a.add b) - (cart a + cart b)‖ ≤ 1 / 10 ^ 10 * (1 + a.mag + b.mag) :=
+  add_refines ha hb h0a h0b hcb
+
+/-- (E) negation is the point reflection -/
+theorem cart_negate {b : Geonum ℝ} (hb : b.angle.Inv) : cart b.negate = -cart b := by
+  show polar b.mag (T b.angle.negate) = -polar b.mag (T b.angle)
+  rw [negate_total_real hb, polar_add_pi]
+
+/-- (E) the difference is the Cartesian difference, same tolerance -/
+theorem sub_is_cartesian_difference {a b : Geonum ℝ} (ha : a.angle.Inv) (hb : b.angle.Inv) (h0a : 0 ≤ a.mag) (h0b : 0 ≤ b.mag)
+    (hcb : a.angle.blade + (b.angle.blade + 2) ≤ 2 ^ 40) :
+    ‖cart (a.sub b) - (cart a - cart b)‖ ≤ 1 / 10 ^ 10 * (1 + a.mag + b.mag) := by
+  have hn := negate_spec hb
+  have hninv : b.negate.angle.Inv := inv_of_spec hb hn.2
+  have h := add_refines ha hninv h0a (show 0 ≤ b.negate.mag from h0b) (by
+    show a.angle.blade + b.angle.negate.blade ≤ 2 ^ 40
+    rw [hn.1]; exact hcb)
+  rw [cart_negate hb] at h
+  have e : cart a - cart b = cart a + -cart b := by ring
+  rw [e]; exact h
+
+/-- (E) `a + b` and `b + a` denote the same point to within twice the tolerance -/
+theorem add_comm_cartesian {a b : Geonum ℝ} (ha : a.angle.Inv) (hb : b.angle.Inv) (h0a : 0 ≤ a.mag) (h0b : 0 ≤ b.mag)
+    (hcb : a.angle.blade + b.angle.blade ≤ 2 ^ 40) :
+    ‖cart (a.add b) - cart (b.add a)‖ ≤ 2 * (1 / 10 ^ 10 * (1 + a.mag + b.mag)) := by
+  have h1 := add_refines ha hb h0a h0b hcb
+  have h2 := add_refines hb ha h0b h0a (by rw [Nat.add_comm]; exact hcb)
+  have e : cart (a.add b) - cart (b.add a) = (cart (a.add b) - (cart a + cart b)) - (cart (b.add a) - (cart b + cart a)) := by ring
+  rw [e]
+  calc ‖(cart (a.add b) - (cart a + cart b)) - (cart (b.add a) - (cart b + cart a))‖
+      ≤ ‖cart (a.add b) - (cart a + cart b)‖ + ‖cart (b.add a) - (cart b + cart a)‖ := norm_sub_le _ _
+    _ ≤ 2 * (1 / 10 ^ 10 * (1 + a.mag + b.mag)) := by
+        have : 1 + b.mag + a.mag = 1 + a.mag + b.mag := by ring
+        rw [this] at h2; linarith
+
+/-- (E) a zero-magnitude operand leaves the other's vector unchanged (within the tolerance), whatever its angle -/
+theorem add_zero_operand {a z : Geonum ℝ} (ha : a.angle.Inv) (hz : z.angle.Inv) (h0a : 0 ≤ a.mag) (hzm : z.mag = 0)
+    (hcb : a.angle.blade + z.angle.blade ≤ 2 ^ 40) :
+    ‖cart (a.add z) - cart a‖ ≤ 1 / 10 ^ 10 * (1 + a.mag) := by
+  have h := add_refines ha hz h0a (by rw [hzm]) hcb
+  have hcz : cart z = 0 := by show polar z.mag _ = 0; rw [hzm, polar_zero]
+  rw [hcz, add_zero, hzm, add_zero] at h
+  exact h
+
+end E
+
+/-! PARTIAL (B-tier, stated in DESIGN §6): the float statement — the same refinement for binary64 with a rounding bound that
+    loosens to about `sqrt(eps)·scale` only under near-total cancellation — is not proved (no binary64 error-analysis library);
+    it is explored by `oracle.C06.sum` / `oracle.C06.running` against a Cartesian reference with exactly that tolerance. -/
 
 example {F : Type} [FloatSpec F] : (⟨one, ⟨zero, 3⟩⟩ : Geonum F).MagDom :=
   ⟨fin_one, by rw [val_one]; norm_num, by rw [val_one]; exact one_le_pow₀ (by norm_num)⟩
